@@ -27,9 +27,10 @@ type Clause struct {
 }
 
 type LoopCon struct {
-	N    int
-	Invs []Clause
-	Mods []ast.Expr
+	N       int
+	Invs    []Clause
+	Mods    []ast.Expr
+	ModHeap bool
 }
 
 type LetDef struct {
@@ -401,7 +402,11 @@ func (p *Program) parseContractFile(pkg *packages.Package, file string) error {
 			}
 			if strings.HasPrefix(rest, "allheap") {
 				// everything except ghost streams/counters (GH.*) and channel state (CN.*, CL.*)
-				cur.ModHeap = true
+				if curLoop != nil {
+					curLoop.ModHeap = true
+				} else {
+					cur.ModHeap = true
+				}
 				rest = strings.TrimSpace(strings.TrimPrefix(strings.TrimPrefix(rest, "allheap"), ","))
 				if rest == "" {
 					break
